@@ -976,6 +976,83 @@ def r01_12(ctx):
     ctx.floor("R01.12", "trailing_zeros sites", n, 6)
 
 
+MUST_PROVE = (
+    # (function, obligation kind, regex on the description, sites discharged today, why it matters)
+    ("Parser::do_skip_number", "sub", r"^Sub\(32,", 1, "bytes left in the 32-lane block after the fraction's first digit: an underflow eats 2^64-k bytes"),
+    ("Parser::do_skip_number", "shift-upper", r"^wrapping_shr\(", 1, "the non-digit mask is shifted by the lanes already consumed: >= 32 wraps and re-reads old lanes"),
+    ("Parser::skip_space", "shift-upper", r"^Shl\(1,", 1, "the cached non-space bitmap is masked by 1 << offset: 64 overflows"),
+    ("Parser::skip_space", "BoundsCheck", r"<64\)$", 1, "index of the first non-space lane in the 64-byte block"),
+    ("Parser::get_from_array", "sub", r",1\)$", 1, "the element countdown stops at zero"),
+    ("Parser::get_from_array_checked", "sub", r",1\)$", 1, "the element countdown stops at zero"),
+    ("parser::skip_container_loop", "sub", r",1\)$", 2, "the open-bracket balance is decremented only while positive"),
+    ("error::Error::syntax", "sub", r",1\)$", 1, "the snippet window start is decremented only while positive"),
+    ("util::utf8::lossy_offset_to_origin", "sub", r",3\)$", 1, "a replacement character is removed from the lossy offset only when 3 bytes are there"),
+    ("value::array::Array::swap_remove", "sub", r",1\)$", 1, "len - 1 is taken after the index < len test"),
+    ("util::unicode::hex_to_u32_nocheck", "BoundsCheck", r"<886\)$", 4, "the four 256-entry hex digit tables live in one 886-entry array at offsets 0/210/420/630 and are indexed by offset + byte"),
+    ("RawFloat>::pow10_fast_path", "BoundsCheck", r"<(16|32)\)$", 2, "the exact power-of-ten tables are indexed by exponent & (len-1)"),
+    ("decimal::Decimal::left_shift", "BoundsCheck", r"<768\)$", 2, "digit writes are guarded by write_index < MAX_DIGITS"),
+    ("decimal::Decimal::right_shift", "BoundsCheck", r"<768\)$", 1, "digit writes are guarded by write_index < MAX_DIGITS"),
+    ("decimal::Decimal::round", "BoundsCheck", r"<768\)$", 2, "the rounding digit is read only when decimal_point < num_digits <= MAX_DIGITS"),
+    ("decimal::number_of_digits_decimal_left_shift", "BoundsCheck", r"<65\)$", 2, "the shift table is indexed by shift & 63 and shift + 1"),
+    ("lemire::compute_float", "shift-upper", r"^Shl\(", 1, "the significand is normalised by its own leading_zeros after the w == 0 exit"),
+    ("lemire::compute_product_approx", "shift-upper", r"^Shr\(", 1, "the precision mask shift is guarded by precision < 64"),
+    ("sonic_number::parse_float_fast", "BoundsCheck", r"<23\)$", 2, "POW10_FLOAT[exp10] on the exp10 <= 22 edges"),
+    ("sonic_number::parse_float_fast", "sub", r",22\)$", 1, "exp10 - 22 on the exp10 > 22 edge"),
+)
+
+
+def r01_13(ctx, crates=("sonic_rs", "sonic_number"), floor=40):
+    """interval abstract interpretation: arithmetic/index checks that today's guards discharge stay discharged,
+    and no check is violated by a bound the program itself establishes"""
+    from ..intervals import obligations
+    prog = ctx.prog()
+    tally = collections.Counter()
+    per_fn = {}
+    nfn = 0
+    for f in prog.fns.values():
+        if f.crate not in crates:
+            continue
+        try:
+            obs = obligations(f)
+        except RuntimeError as e:
+            ctx.ob("R01.13", f"converges:{short(f.id)}", False, f.loc(), str(e))
+            continue
+        if not obs:
+            continue
+        nfn += 1
+        per_fn[f.id] = (f, obs)
+        seen = collections.Counter()
+        for o in obs:
+            tally[(o["kind"], o["verdict"])] += 1
+            if o["verdict"] == "exceeds":
+                seen[(o["kind"], o["desc"])] += 1
+                ctx.ob("R01.13", f"exceeds:{short(f.id)}:{o['kind']}:{o['desc']}#{seen[(o['kind'], o['desc'])]}", False, f.loc(o["ln"]),
+                       f"{o['kind']} {o['desc']}: {o['detail']} - the bounds established by the function's own constants and guards allow the failing case "
+                       "(debug builds panic; release builds wrap or index out of range)")
+    proved = sum(v for (k, vd), v in tally.items() if vd == "proved")
+    ctx.ob("R01.13", "no-check-exceeded", not any(vd == "exceeds" for (k, vd) in tally), "",
+           f"{nfn} bodies with arithmetic/index obligations: " + ", ".join(f"{k}:{vd}={v}" for (k, vd), v in sorted(tally.items())) +
+           " (unknown = no bound available, nothing claimed)")
+    ctx.floor("R01.13", "obligations discharged by the interval analysis", proved, floor)
+    for fname, kind, rx, want, why in MUST_PROVE:
+        in_number = fname.startswith(("decimal::", "lemire::", "sonic_number::", "RawFloat"))
+        if ("sonic_number" if in_number else "sonic_rs") not in crates:
+            continue
+        cands = [(f, obs) for fid, (f, obs) in per_fn.items() if norm_path(fid).endswith(fname)]
+        sites = [(f, o) for f, obs in cands for o in obs if o["kind"] == kind and re.search(rx, o["desc"])]
+        key = f"must-prove:{fname}:{kind}:{rx}"
+        if not sites:
+            ctx.ob("R01.13", key, False, cands[0][0].loc() if cands else "", f"anchor not found: no {kind} obligation matching {rx} in {fname} ({why})")
+            continue
+        good = [(f, o) for f, o in sites if o["verdict"] == "proved"]
+        bad = [(f, o) for f, o in sites if o["verdict"] != "proved"]
+        ok = len(good) >= want
+        f0, o0 = (bad if (bad and not ok) else sites)[0]
+        ctx.ob("R01.13", key, ok, f0.loc(o0["ln"]),
+               (f"{len(good)} site(s) discharged by the guards in the function, e.g. {good[0][1]['desc']}: {good[0][1]['detail']}" if ok else
+                f"only {len(good)} of the {want} sites discharged on the audited tree are still discharged; {o0['desc']}: {o0['detail']} ({o0['verdict']})") + f" - {why}")
+
+
 def r01_8(ctx):
     """no leak on an error path of the bitwise hand-over (shared with C16: R16.2)"""
     from .c16 import r16_2
@@ -997,4 +1074,4 @@ def r01_s(ctx):
     ctx.include(c16.r16_6, 'R01.S')
 
 
-RULES = [("R01.1", r01_1), ("R01.2", r01_2), ("R01.2b", r01_2b), ("R01.3", r01_3), ("R01.4", r01_4), ("R01.5", r01_5), ("R01.6", r01_6), ("R01.7", r01_7), ("R01.8", r01_8), ("R01.9", r01_9), ("R01.10", r01_10), ("R01.11", r01_11), ("R01.12", r01_12), ("R01.W", r01_w), ("R01.S", r01_s)]
+RULES = [("R01.1", r01_1), ("R01.2", r01_2), ("R01.2b", r01_2b), ("R01.3", r01_3), ("R01.4", r01_4), ("R01.5", r01_5), ("R01.6", r01_6), ("R01.7", r01_7), ("R01.8", r01_8), ("R01.9", r01_9), ("R01.10", r01_10), ("R01.11", r01_11), ("R01.12", r01_12), ("R01.13", r01_13), ("R01.W", r01_w), ("R01.S", r01_s)]
